@@ -10,7 +10,7 @@ VARIABLE hist
 LogRec(o, now) ==
   [ev |-> o.name, seq |-> Len(hist), thr |-> 0, route |-> o.route, host |-> o.host, size |-> o.size, hash |-> o.id,
    mime |-> o.mime, lo |-> now, hi |-> now, hit |-> o.res.hit, rsize |-> o.res.size, rhash |-> o.res.id,
-   rmime |-> o.res.mime, rt |-> o.res.t, limit |-> Limit, tl |-> TimeLimit, aux |-> 0]
+   rmime |-> o.res.mime, rt |-> o.res.t, limit |-> Limit, tl |-> TimeLimit, aux |-> IF o.panic THEN 2 ELSE 0]
 ResetRec ==
   [ev |-> "reset", seq |-> 0, thr |-> 0, route |-> "", host |-> 0, size |-> 0, hash |-> 0, mime |-> "sim", lo |-> 0, hi |-> 0,
    hit |-> FALSE, rsize |-> 0, rhash |-> 0, rmime |-> "", rt |-> 0, limit |-> Limit, tl |-> TimeLimit, aux |-> 0]
